@@ -146,7 +146,7 @@ pub fn varlink_bridge<S: ?Sized + AsRef<str>>(address: &S) -> Result<(Child, Box
     let (stream0, stream1) = UnixStream::pair().map_err(map_context!())?;
     let fd = stream1.into_raw_fd();
     let childin = unsafe { ::std::fs::File::from_raw_fd(fd) };
-    let childout = unsafe { ::std::fs::File::from_raw_fd(fd) };
+    let childout = childin.try_clone().map_err(map_context!())?;
 
     let child = Command::new("sh")
         .arg("-c")
